@@ -356,3 +356,27 @@ CHECKS["C15"] = dict(
     technique="property-based testing (rapid): round trip through ExportNodes/ImportNodes with structural tree comparison",
     design_ref="DESIGN.md section 4, C15",
 )
+
+CHECKS["C08"] = dict(
+    pkg="c08", level="exploration",
+    props=[dict(name="TestPropToldOfForeignChanges", quick=480, thorough=16 * 2500, shards_quick=12, shards_thorough=16, timeout_quick=900, timeout_thorough=7200)],
+    rule="a real instance plus client.NewManager for a harness-defined node type Probe (description, value, string slice, map, "
+         "edge fields, child list probeKid) whose instrumented client records every Points/EdgePoints callback; tree: P "
+         "under the root with two probeKid children, a grandchild, and an unrelated sibling. After P runs (warm-up handshake) "
+         "10-40 batches are written with acknowledgement, each with one origin from {\"\", P, a child, the sibling, a user} "
+         "to a target from {P, children, grandchild, sibling, root} (node points of declared and undeclared types, keys into "
+         "the slice/map) or non-structural edge points on five edges, timestamps increasing; a final foreign batch is the "
+         "barrier. Oracle: the callbacks must equal, in order, the accepted batches with target in P's subtree, minus the "
+         "ones P authored (empty origin on P itself, or origin P); foreign edge-point batches must be passed through, "
+         "self-authored ones may or may not be; nothing else may be delivered; no restart. Then folding the deliveries and P's "
+         "own writes into the configuration P was started with (MergePoints/MergeEdgePoints) must equal Decode of what the "
+         "store returns for P and its children. Non-trivial = the history has a batch outside the subtree, an own write, a "
+         "foreign node-point batch and a foreign edge-point batch.",
+    assumptions=["each batch carries one origin (one author)", "no tombstoned points (deletions across separate merges are documented as lossy)",
+                 "structural edge points (tombstone, nodeType) belong to C07", "the history starts after the manager's subscription is in place"],
+    level_text="Generated write histories (rapid) against a filter model of the delivery log plus a fold-equals-store metamorphic check, "
+               "through the public client.NewManager.",
+    level_note="Trusted: NATS ordering per subscription; the barrier batch as quiescence signal.",
+    technique="property-based testing (rapid): model of the expected callback sequence + fold/Decode agreement",
+    design_ref="DESIGN.md section 4, C08",
+)
